@@ -9,10 +9,14 @@ Inductive rkind := RFunc | RLambda | RClass | RStatic | RModuleImport | RFromImp
 Record site := mkSite {
   st_root : list (string * rkind);       (* module-level names of the target file; static methods as "C.s" *)
   st_module_members : list string;       (* "m.f" for every function f defined in an imported local module m *)
+  st_dotted_heads : list string;         (* p for every un-aliased `import p.x`: Python binds p to the package *)
   st_params : list string;               (* parameters of the calling function and of every enclosing lambda / nested def *)
   st_callee : string;                    (* the callee expression, dotted spelling *)
   st_special : bool;                     (* the callee is a call result, a subscript item, a literal *)
-  st_inlined : bool }.                   (* OBSERVED: the callee's distinctive accesses are in the caller's results *)
+  st_callee_access : string;             (* the distinctive access the named callee contributes when inlined with the
+                                            arguments of this site ("" when the spelling names no analysed callable) *)
+  st_may : list string;                  (* distinctive accesses of inner calls (g(a) in g(a).m(a)): allowed, not demanded *)
+  st_observed : list string }.           (* OBSERVED: every distinctive access in the caller's results *)
 
 Fixpoint rlookup (t : list (string * rkind)) (n : string) : option rkind :=
   match t with [] => None | (k, v) :: r => if String.eqb k n then Some v else rlookup r n end.
@@ -44,6 +48,26 @@ Definition expected_inline (s : site) : bool :=
        | _ => false
        end.
 
+(* `import p.x` (no alias) binds p: Python would pick p's own member for p.f() and x's member for p.x.f().  The
+   property only says such a call is inlined from THAT module and no other ("only when m is an imported module");
+   that rattr does not follow these calls at all is listed under C06.  So: the named callee's access may be there,
+   nothing else may. *)
+Definition optional_inline (s : site) : bool :=
+  negb (st_special s)
+  && match split_dot (st_callee s) with
+     | m :: _ :: _ => mem m (st_dotted_heads s) && negb (mem m (st_params s)) && mem (st_callee s) (st_module_members s)
+     | _ => false
+     end.
+
+Definition allowed (s : site) : list string :=
+  (if (expected_inline s || optional_inline s) && negb (String.eqb (st_callee_access s) "") then [st_callee_access s] else [])
+  ++ st_may s.
+
+(* rattr's answer agrees with the property: nothing but the allowed accesses was inlined, and the demanded one was *)
+Definition site_ok (s : site) : bool :=
+  forallb (fun a => mem a (allowed s)) (st_observed s)
+  && (if expected_inline s then mem (st_callee_access s) (st_observed s) else true).
+
 (* finding class KF_C08_1: the base of the callee is a parameter that is spelled like a module-level name *)
 Definition shadowed_by_parameter (s : site) : bool :=
   match split_dot (st_callee s) with
@@ -51,7 +75,12 @@ Definition shadowed_by_parameter (s : site) : bool :=
   | [] => false
   end.
 
-(* bit 0 (value 2 to leave bit 0 for the correspondence): rattr's decision differs from the property's;
-   bit value 4: the site is in the finding class *)
+(* finding class KF_C08_2: the callee is the result of a call to a module-level callable - f(x)(y) *)
+Definition call_on_call_result (s : site) : bool :=
+  st_special s && ends_with "()" (st_callee s)
+  && match rlookup (st_root s) (without_call_brackets (st_callee s)) with Some k => callable_kind k | None => false end.
+
+(* value 2 (bit 0 is left for the correspondence): rattr's decision differs from the property's;
+   value 4: the site is in finding class KF_C08_1; value 8: in KF_C08_2 *)
 Definition site_code (s : site) : nat :=
-  (if Bool.eqb (expected_inline s) (st_inlined s) then 0 else 2) + (if shadowed_by_parameter s then 4 else 0).
+  (if site_ok s then 0 else 2) + (if shadowed_by_parameter s then 4 else 0) + (if call_on_call_result s then 8 else 0).
